@@ -1331,6 +1331,11 @@ pub fn frame_vs_reference(f: &FrameObs, r: &RefFrame, refm: &RefModel, quiescent
             return Some(("frame-status-differs-from-acknowledged-calls".into(),
                 format!("frame {}: status {} superseded_by {:?}, expected {} {:?}", f.id, f.status, f.superseded_by, r.status, r.superseded_by)));
         }
+    }
+    // the content of a COMMITTED frame never changes: it is compared at every moment, not only at quiescent
+    // ones (status may lag behind pending tombstones / updates, content may not).  Seed C01-1 damaged committed
+    // payloads while records were pending and was first reported only as a model/implementation disagreement.
+    {
         if let Some(exp) = refm.expected_read(f.id) {
             if f.canon_raw != exp && !(f.status != 'a' && f.canon_raw == "err") {
                 if r.note == "reuse-of-chunked" && f.canon_raw == "E" {
